@@ -31,7 +31,7 @@ pred cursorInv(c *restoreLevelCursor, cur int, txID int, ts int) =
 
 func litestream.(*restoreLevelCursor).refresh(c, currentMax, txID, timestamp) (err)
   requires cursorInv(c, currentMax, txID, timestamp)
-  requires sortedLevel(it_client[c.itr], it_level[c.itr]) && wfItems(it_client[c.itr], it_level[c.itr])
+  requires wfLevel(it_client[c.itr], it_level[c.itr])
   requires currentMax < 9223372036854775807
   modifies c.current, c.candidate, c.done, it_idx
   ensures forall k int :: k != c.itr ==> it_idx[k] == old(it_idx[k])
@@ -56,7 +56,6 @@ pred cursorsInv(cs []*restoreLevelCursor, n int, cur int, cl int, txID int, ts i
   && (forall i int, j int :: {cs[i], cs[j]} 0 <= i && i < j && j < n ==> cs[i] != cs[j] && cs[i].itr != cs[j].itr)
 
 func litestream.CalcRestorePlan(ctx, client, txID, timestamp, logger) (infos, err)
-  requires client != nil && wfReplica(client) && snapMin1(client)
   requires txID < 9223372036854775807
   modifies $alloc, it_idx
   ensures [C08.nonempty] err == nil ==> len(infos) >= 1
@@ -65,21 +64,23 @@ func litestream.CalcRestorePlan(ctx, client, txID, timestamp, logger) (infos, er
   ensures [C08.target] err == nil && txID != 0 ==> infos[len(infos) - 1].MaxTXID == txID
   ensures [C08.time] err == nil && timestamp != 0 ==> (forall i int :: 0 <= i && i < len(infos) ==> infos[i].CreatedAt < timestamp)
   ensures [C08.member] err == nil ==> (forall i int :: 0 <= i && i < len(infos) ==> member(client, infos[i]))
+  loop 0 invariant wfLevel(client, 9)
   loop 0 invariant snapshotItr != nil && itOK(snapshotItr) && it_client[snapshotItr] == client && it_level[snapshotItr] == 9
   loop 0 invariant snapshot != nil ==> elig(snapshot, txID, timestamp) && (exists k int :: 0 <= k && k < it_idx[snapshotItr] && snapshot == item(snapshotItr, k))
   loop 0 invariant forall k int :: 0 <= k && k < it_idx[snapshotItr] && elig(item(snapshotItr, k), txID, timestamp) ==> snapshot != nil && fmax(item(snapshotItr, k)) <= snapshot.MaxTXID
   loop 1 invariant -1 <= level && level <= 8 && len(cursors) == 8 - level && cap(cursors) == 9
-  loop 1 invariant fresh(arr(cursors))
+  loop 1 invariant fresh(arr(cursors)) && wfLevel(client, 9) && (forall lv int :: level < lv && lv <= 8 ==> wfLevel(client, lv))
   loop 1 invariant cursorsInv(cursors, len(cursors), currentMax, client, txID, timestamp)
   loop 2 invariant len(cursors) == 9 && cursorsInv(cursors, 9, currentMax, client, txID, timestamp)
+  loop 2 invariant wfLevel(client, 9) && (forall lv int :: 0 <= lv && lv <= 8 ==> wfLevel(client, lv))
   loop 2 invariant fresh(arr(cursors)) && (cap(infos) == 0 || fresh(arr(infos)))
   loop 2 invariant planInv(infos, currentMax, client, txID, timestamp)
   loop 3 invariant -1 <= rangeindex && rangeindex < 9
   loop 3 invariant len(cursors) == 9 && cursorsInv(cursors, 9, currentMax, client, txID, timestamp)
-  loop 3 invariant fresh(arr(cursors))
+  loop 3 invariant fresh(arr(cursors)) && wfLevel(client, 9) && (forall lv int :: 0 <= lv && lv <= 8 ==> wfLevel(client, lv))
   loop 3 invariant next == nil || (next.candidate != nil && (exists m int :: 0 <= m && m <= rangeindex && next == cursors[m]))
   loop 4 invariant len(cursors) == 9 && cursorsInv(cursors, 9, currentMax, client, txID, timestamp)
-  loop 4 invariant fresh(arr(cursors)) && rangeindex#1 < 9
+  loop 4 invariant fresh(arr(cursors)) && rangeindex#1 < 9 && wfLevel(client, 9) && (forall lv int :: 0 <= lv && lv <= 8 ==> wfLevel(client, lv))
   loop 4 invariant planInv(infos, currentMax, client, txID, timestamp)
 
 func litestream.(*restoreLevelCursor).ensureCurrent(c) (err)
@@ -117,18 +118,19 @@ func litestream.sortSnapshotsV3ByCreatedAt(snapshots)
 
 // segcnt is a definitional ghost function: the number of eligible segments among
 // the first j (its recursive definition is the first precondition).
-spec segcnt(Int) Int
+spec segcnt(Int, Int, Int, Int) Int
 pred segElig(ss []WALSegmentInfoV3, j int, idx int, ts int) = ss[j].Index >= idx && (ts == 0 || ss[j].CreatedAt <= ts)
 pred segEq(a []WALSegmentInfoV3, i int, b []WALSegmentInfoV3, j int) = a[i].Index == b[j].Index && a[i].Offset == b[j].Offset && a[i].CreatedAt == b[j].CreatedAt && a[i].Generation == b[j].Generation && a[i].Size == b[j].Size
 
 func litestream.filterWALSegmentsV3(segments, snapshotIndex, timestamp) (result)
-  requires segcnt(0) == 0 && (forall j int :: {segments[j]} 0 <= j && j < len(segments) ==> segcnt(j + 1) == segcnt(j) + (segElig(segments, j, snapshotIndex, timestamp) ? 1 : 0))
+  let A = arr(segments)
+  defines segcnt(A, snapshotIndex, timestamp, 0) == 0 && (forall j int :: {segments[j]} 0 <= j && j < len(segments) ==> segcnt(A, snapshotIndex, timestamp, j + 1) == segcnt(A, snapshotIndex, timestamp, j) + (segElig(segments, j, snapshotIndex, timestamp) ? 1 : 0))
   modifies $alloc
-  ensures [C19.filter-count] len(result) == segcnt(len(segments))
-  ensures [C19.filter-exact] forall j int :: {segments[j]} 0 <= j && j < len(segments) && segElig(segments, j, snapshotIndex, timestamp) ==> 0 <= segcnt(j) && segcnt(j) < len(result) && segEq(result, segcnt(j), segments, j)
-  loop 0 invariant rangeindex < len(segments) && len(result) == segcnt(rangeindex + 1) && 0 <= segcnt(rangeindex + 1)
+  ensures [C19.filter-count] len(result) == segcnt(A, snapshotIndex, timestamp, len(segments))
+  ensures [C19.filter-exact] forall j int :: {segments[j]} 0 <= j && j < len(segments) && segElig(segments, j, snapshotIndex, timestamp) ==> 0 <= segcnt(A, snapshotIndex, timestamp, j) && segcnt(A, snapshotIndex, timestamp, j) < len(result) && segEq(result, segcnt(A, snapshotIndex, timestamp, j), segments, j)
+  loop 0 invariant rangeindex < len(segments) && len(result) == segcnt(A, snapshotIndex, timestamp, rangeindex + 1) && 0 <= segcnt(A, snapshotIndex, timestamp, rangeindex + 1)
   loop 0 invariant cap(result) == 0 || fresh(arr(result))
-  loop 0 invariant forall j int :: {segments[j]} 0 <= j && j <= rangeindex && segElig(segments, j, snapshotIndex, timestamp) ==> 0 <= segcnt(j) && segcnt(j) < len(result) && segEq(result, segcnt(j), segments, j)
+  loop 0 invariant forall j int :: {segments[j]} 0 <= j && j <= rangeindex && segElig(segments, j, snapshotIndex, timestamp) ==> 0 <= segcnt(A, snapshotIndex, timestamp, j) && segcnt(A, snapshotIndex, timestamp, j) < len(result) && segEq(result, segcnt(A, snapshotIndex, timestamp, j), segments, j)
 
 // Ghost bookkeeping for the v0.3.x WAL reconstruction: v3_opened counts the WAL
 // files opened so far, v3_walIndex is the index of the WAL file being built.
@@ -141,7 +143,8 @@ func litestream.(*Replica).appendWALSegmentV3(r, ctx, client, generation, seg, f
   ensures n >= 0 && old(file_written[f]) + n < 4611686018427387904 && file_written == old(file_written)[f := old(file_written[f]) + n]
 
 func litestream.(*Replica).applyWALSegmentsV3(r, ctx, client, generation, snapshotIndex, segments, dbPath) (err)
-  requires v3_opened == 0 && 0 <= snapshotIndex && snapshotIndex < 4611686018427387904
+  requires v3_opened == 0
+  assumes 0 <= snapshotIndex && snapshotIndex < 4611686018427387904   // A-C19-index: snapshot indices come from 8-hex-digit file names
   modifies $heap, $alloc, file_written, path_synced, path_handle, file_closed, v3_opened, v3_walIndex
   at os.OpenFile#1 assert [C19.order] seg.Index == snapshotIndex + v3_opened
   at os.OpenFile#1 set v3_opened = v3_opened + 1
@@ -398,16 +401,19 @@ func litestream.(*DB).EnforceL0RetentionByTime(db, ctx) (err)
 // ---------------------------------------------------------------------------
 // C11 / C03: publish by rename of a closed, synced temp file, then sync the directory.
 
+ghost txf_dst Int
+ghost txf_renamed Bool
 func litestream.WriteTXIDFile(outputPath, txid) (err)
-  requires !pub_renamed
-  modifies $alloc, file_written, path_synced, path_handle, file_closed, pub_dst, pub_renamed
+  requires !txf_renamed
+  modifies $alloc, file_written, path_synced, path_handle, file_closed, txf_dst, txf_renamed
   at os.Create#all assert [C03.tmp-only] hasSuffix($arg0, ".tmp") && $arg0 == tmpPath
-  at os.Rename#all assert [C03.publish-from-tmp] $arg0 == tmpPath && $arg1 == txidPath && tmpPath == concat(txidPath, ".tmp") && !pub_renamed
+  at os.Rename#all assert [C03.publish-from-tmp] $arg0 == tmpPath && $arg1 == txidPath && tmpPath == concat(txidPath, ".tmp") && !txf_renamed
   at os.Rename#all assert [C11.flush] f != nil && path_handle[$arg0] == f && path_synced[$arg0] && file_closed[f]
-  at os.Rename#1 set pub_dst = $arg1
-  at os.Rename#1 set pub_renamed = ($result0 == nil)
-  ensures [C11.dir] err == nil ==> pub_renamed && path_synced[path_dir(pub_dst)]
-  ensures [C11.content] err == nil ==> path_synced[pub_dst]
+  at os.Remove#any assert [C03.no-unlink-final] $arg0 == tmpPath
+  at os.Rename#1 set txf_dst = $arg1
+  at os.Rename#1 set txf_renamed = ($result0 == nil)
+  ensures [C11.dir] err == nil ==> txf_renamed && path_synced[path_dir(txf_dst)]
+  ensures [C11.content] err == nil ==> path_synced[txf_dst]
 
 func litestream.(*DB).checkDatabaseBehindReplica(db, ctx) (err)
   requires db != nil && !pub_renamed
@@ -419,4 +425,75 @@ func litestream.(*DB).checkDatabaseBehindReplica(db, ctx) (err)
   at os.Rename#1 set pub_renamed = ($result0 == nil)
   ensures [C11.dir] err == nil && pub_renamed ==> path_synced[path_dir(pub_dst)]
   ensures [C11.content] err == nil && pub_renamed ==> path_synced[pub_dst]
+
+// ---------------------------------------------------------------------------
+// C10 / C11 / C03: restore output. Ghosts record what the storage/OS calls of one call returned.
+ghost c10_statAbsent Bool
+ghost c10_decodeErr Int
+ghost c10_syncErr Int
+ghost c10_closeErr Int
+ghost c10_integrityErr Int
+ghost c10_ctxErr Int
+ghost c10_removed Bool
+ghost c10_planErr Int
+ghost c10_dlErr Int
+ghost c10_applyErr Int
+
+func litestream.(*Replica).Restore(r, ctx, opt) (err)
+  requires r != nil && r.Client != nil && opt.TXID < 9223372036854775807 && !txf_renamed
+  requires !pub_renamed && !c10_statAbsent && !c10_removed && c10_integrityErr == nil && c10_decodeErr == nil && c10_syncErr == nil && c10_closeErr == nil && c10_planErr == nil && c10_dlErr == nil && c10_applyErr == nil && v3_opened == 0
+  modifies $heap, $alloc, it_idx, file_written, path_synced, path_handle, file_closed, pub_dst, pub_renamed, txf_dst, txf_renamed, c10_statAbsent, c10_decodeErr, c10_syncErr, c10_closeErr, c10_integrityErr, c10_ctxErr, c10_removed, c10_planErr, c10_dlErr, c10_applyErr, arb_v3U, arb_ltxU, arb_v3S, arb_v3SCreated, arb_ltxS, arb_ltxSCreated, v3_opened, v3_walIndex
+  at os.Stat#2 set c10_statAbsent = isNotExist($result1)
+  at litestream.CalcRestorePlan#1 set c10_planErr = $result1
+  at os.Create#all assert [C03.tmp-only] hasSuffix($arg0, ".tmp") && $arg0 == tmpOutputPath && tmpOutputPath == concat(opt.OutputPath, ".tmp")
+  at ltx.(*Decoder).DecodeDatabaseTo#1 assert [C10.decode-target] $arg0 == f && f != nil && path_handle[tmpOutputPath] == f
+  at ltx.(*Decoder).DecodeDatabaseTo#1 set c10_decodeErr = $result0
+  at os.(*File).Sync#1 set c10_syncErr = $result0
+  at os.(*File).Close#1 set c10_closeErr = $result0
+  at os.Rename#all assert [C10.no-overwrite] $arg1 == opt.OutputPath && c10_statAbsent && !pub_renamed
+  at os.Rename#all assert [C03.publish-from-tmp] $arg0 == tmpOutputPath
+  at os.Rename#all assert [C11.flush] f != nil && path_handle[$arg0] == f && path_synced[$arg0] && file_closed[f]
+  at os.Rename#all assert [C10.no-partial] c10_decodeErr == nil && c10_syncErr == nil && c10_closeErr == nil && c10_planErr == nil
+  at os.Rename#1 set pub_dst = $arg1
+  at os.Rename#1 set pub_renamed = ($result0 == nil)
+  at litestream.checkIntegrity#1 assert [C11.dir] pub_renamed && path_synced[path_dir(pub_dst)] && path_synced[pub_dst]
+  at litestream.checkIntegrity#1 set c10_integrityErr = $result0
+  at context.Context.Err#1 set c10_ctxErr = $result0
+  at os.Remove#1 assert [C10.integrity-remove-target] $arg0 == opt.OutputPath
+  at os.Remove#1 set c10_removed = true
+  at os.Remove#any assert [C03.no-unlink-final] $arg0 == tmpOutputPath || c10_integrityErr != nil
+  ensures [C10.err-plan] c10_planErr != nil ==> err != nil
+  ensures [C10.err-decode] c10_decodeErr != nil ==> err != nil && !pub_renamed
+  ensures [C10.err-sync] c10_syncErr != nil || c10_closeErr != nil ==> err != nil && !pub_renamed
+  ensures [C10.integrity-err] c10_integrityErr != nil ==> err != nil
+  ensures [C10.integrity-remove] c10_integrityErr != nil && c10_ctxErr == nil ==> c10_removed
+
+func litestream.(*Replica).downloadSnapshotV3(r, ctx, client, generation, index, destPath) (err)
+  modifies $heap, $alloc, file_written, path_synced, path_handle, file_closed
+  at os.Create#all assert [C03.v3-create-target] $arg0 == destPath
+  ensures [C11.v3-snapshot-synced] err == nil ==> path_synced[destPath]
+
+func litestream.(*Replica).RestoreV3(r, ctx, opt) (err)
+  requires r != nil && !pub_renamed && !c10_removed && c10_integrityErr == nil && c10_dlErr == nil && c10_applyErr == nil && v3_opened == 0
+  modifies $heap, $alloc, it_idx, file_written, path_synced, path_handle, file_closed, pub_dst, pub_renamed, c10_statAbsent, c10_integrityErr, c10_ctxErr, c10_removed, c10_dlErr, c10_applyErr, v3_opened, v3_walIndex
+  at os.Stat#1 set c10_statAbsent = isNotExist($result1)
+  at litestream.(*Replica).downloadSnapshotV3#1 assert [C03.tmp-only] $arg4 == tmpPath && tmpPath == concat(opt.OutputPath, ".tmp")
+  at litestream.(*Replica).downloadSnapshotV3#1 set c10_dlErr = $result0
+  at litestream.(*Replica).applyWALSegmentsV3#1 assert [C19.apply-target] $arg5 == tmpPath && $arg3 == snapshot.Index && $arg2 == snapshot.Generation
+  at litestream.(*Replica).applyWALSegmentsV3#1 set c10_applyErr = $result0
+  at litestream.findBestSnapshotV3#1 assert [C19.snap-time] $arg1 == opt.Timestamp
+  at litestream.filterWALSegmentsV3#1 assert [C19.filter-args] $arg1 == snapshot.Index && $arg2 == opt.Timestamp
+  at os.Rename#all assert [C10.no-overwrite] $arg1 == opt.OutputPath && c10_statAbsent && !pub_renamed
+  at os.Rename#all assert [C03.publish-from-tmp] $arg0 == tmpPath
+  at os.Rename#all assert [C10.no-partial] c10_dlErr == nil && c10_applyErr == nil
+  at os.Rename#1 set pub_dst = $arg1
+  at os.Rename#1 set pub_renamed = ($result0 == nil)
+  at litestream.checkIntegrity#1 assert [C11.dir] pub_renamed && path_synced[path_dir(pub_dst)]
+  at litestream.checkIntegrity#1 set c10_integrityErr = $result0
+  at context.Context.Err#1 set c10_ctxErr = $result0
+  at os.Remove#1 assert [C10.integrity-remove-target] $arg0 == opt.OutputPath
+  at os.Remove#1 set c10_removed = true
+  ensures [C10.err-download] c10_dlErr != nil || c10_applyErr != nil ==> err != nil && !pub_renamed
+  ensures [C10.integrity-err] c10_integrityErr != nil ==> err != nil
+  ensures [C10.integrity-remove] c10_integrityErr != nil && c10_ctxErr == nil ==> c10_removed
 */
